@@ -549,6 +549,9 @@ func c02(c *core.Ctx) {
 	// acceptance as well and are evaluated here under their C04 keys
 	c04(c)
 
+	c.Clause("C02.7", "a block with a transaction no honest node could have built is refused whatever path it came by: the sign clause C05.7 (every *big.Int field of a transaction, box sub transactions included, is refused when negative by VerifyTxBody without regard to isBlockTx) is evaluated here as well")
+	c.Run("tx-signs", func() { c05Signs(c) })
+
 	c.NotDecidedf("that the comparisons use the right constants and tolerances (one second), correctness of GetCorrectMiner's slot arithmetic (C13) and of execution (C01)")
 	c.NotDecidedf("effects of callees not in the frozen mutator list; equality of chain state before and after a rejection as a value")
 }
